@@ -518,7 +518,7 @@ def fam_drain(tier, outdir):
     if tier == "thorough":
         consts.update({"MaxCalls": 5, "MaxOut": 4, "MaxTime": 2, "SinkFails": "{1, 2, 3, 4}", "DlOpts": "{0, 1, 2}"})
     cfg = os.path.join(outdir, "MC_Drain.cfg")
-    write_cfg(cfg, "Spec", consts, ["TypeOK", "LifeChild", "Conservation"], export_stride=2 if tier == "quick" else 1)
+    write_cfg(cfg, "Spec", consts, ["TypeOK", "LifeChild", "Conservation"], export_stride=4 if tier == "quick" else 1)
     return run_tlc_export("drain", "MC_Stream", cfg, outdir, tier, asan_stride=8, tlc_workers=10,
                           stride=1)
 
@@ -1161,7 +1161,7 @@ def fam_cxx(tier, outdir):
                "ReadSizes": "{}", "WriteSizes": "{}", "DlOpts": "{0, 1}", "Mode": '"drain"', "SinkFails": "{2}" if q else "{1, 3}", "NbOpts": "{FALSE}" if q else "{TRUE, FALSE}"}
     run_c = {"Handles": "{1}", "MaxTime": 3, "MaxCalls": 1, "PipeCap": 4, "MaxOut": 2, "ExitCodes": "{3}", "TermDelay": 1, "DlOpts": "{0, 1}",
              "SinkFails": "{1, 3}", "Policies": "{0, 2}" if q else "{0, 1, 2, 3}"}
-    jobs = [("cxx_drain", "MC_Stream", drain_c, 1), ("cxx_run", "MC_Run", run_c, 1)]
+    jobs = [("cxx_drain", "MC_Stream", drain_c, 3 if q else 1), ("cxx_run", "MC_Run", run_c, 2 if q else 1)]
     if not q:
         jobs += [
             ("cxx_destroy", "MC_Destroy", {"Handles": "{1}", "MaxTime": 5, "MaxCalls": 4, "PipeCap": 4, "MaxOut": 0, "ExitCodes": "{3}", "TermDelay": 1, "DlOpts": "{0, 2}",
@@ -1221,7 +1221,7 @@ def fam_run(tier, outdir):
     if tier == "thorough":
         consts.update({"MaxTime": 4, "MaxOut": 3, "SinkFails": "{1, 2, 3, 4}", "Policies": "{0, 1, 2, 3, 4}", "DlOpts": "{0, 1, 2}"})
     cfg = os.path.join(outdir, "MC_Run.cfg")
-    write_cfg(cfg, "Spec", consts, ["TypeOK", "RunTruthful"], export_stride=1)
+    write_cfg(cfg, "Spec", consts, ["TypeOK", "RunTruthful"], export_stride=2 if tier == "quick" else 1)
     return run_tlc_export("run", "MC_Run", cfg, outdir, tier, asan_stride=8, stride=1)
 
 
